@@ -1,0 +1,33 @@
+//go:build verif
+
+package housekeeping
+
+// Contracts for housekeeping (property C43). Comment-only file: compiled only
+// under the "verif" build tag, contains no code. The "//@" lines are read by
+// /verif/govc. tsub/fmtime/fpath/dename/pjoin*/statpath are the abstract
+// vocabulary of the trusted time/os/filepath contracts; mdir(name) is the
+// Mutagen data subdirectory with the given name.
+//
+// 30 days = 2592000000000000 ns, 7 days = 604800000000000 ns.
+
+// Every removal is of <data subdirectory>/<name of a listed entry>, after a
+// successful stat of that very entry (of the agent binary inside it, for
+// agents) whose age exceeds the threshold.
+
+//@ func housekeepAgents
+//@   at call os.RemoveAll assert[stale] tsub(now, stat.AccessTime) > 2592000000000000
+//@   at call os.RemoveAll assert[thatentry] stat != nil && statpath(stat) == pjoin3(agentsDirectoryPath, agentVersion, agentName) && agentVersion == dename(c)
+//@   at call os.RemoveAll assert[inside] arg0 == pjoin2(agentsDirectoryPath, agentVersion) && agentsDirectoryPath == filesystem.mdir("agents")
+//@   at call os.Remove assert[none] false
+
+//@ func housekeepCaches
+//@   at call os.Remove assert[stale] tsub(now, fmtime(stat)) > 604800000000000
+//@   at call os.Remove assert[thatentry] stat != nil && fpath(stat) == fullPath && cacheName == dename(c)
+//@   at call os.Remove assert[inside] arg0 == pjoin2(cachesDirectoryPath, cacheName) && cachesDirectoryPath == filesystem.mdir("caches")
+//@   at call os.RemoveAll assert[none] false
+
+//@ func housekeepStaging
+//@   at call os.RemoveAll assert[stale] tsub(now, fmtime(stat)) > 604800000000000
+//@   at call os.RemoveAll assert[thatentry] stat != nil && fpath(stat) == fullPath && stagingRootName == dename(c)
+//@   at call os.RemoveAll assert[inside] arg0 == pjoin2(stagingDirectoryPath, stagingRootName) && stagingDirectoryPath == filesystem.mdir("staging")
+//@   at call os.Remove assert[none] false
